@@ -100,6 +100,14 @@ func (b *Bundle) Plus(kind string) {
 		b.AuxDef("sub/a.json", "RA"+k, jx.Obj{"type": "array", "items": jx.Obj{"$ref": "#/definitions/RA" + k}})
 		b.AuxDef("sub/a.json", "RM"+k, jx.Obj{"type": "object", "additionalProperties": jx.Obj{"$ref": "deep/b.json#/definitions/RM2" + k}})
 		b.AuxDef("sub/deep/b.json", "RM2"+k, jx.Obj{"type": "array", "items": jx.Obj{"$ref": "../a.json#/definitions/RM" + k}})
+		// two containers closing two different cycles through each other (multi-typed, or with a side branch)
+		b.Def("Ping"+k, jx.Obj{"type": jx.Arr{"object", "array"}, "additionalProperties": jx.Obj{"$ref": "#/definitions/Ping" + k}, "items": jx.Obj{"$ref": "#/definitions/Pong" + k}})
+		b.Def("Pong"+k, jx.Obj{"type": jx.Arr{"object", "array"}, "additionalProperties": jx.Obj{"$ref": "#/definitions/Pong" + k}, "items": jx.Obj{"$ref": "#/definitions/Ping" + k}})
+		b.Def("Tick"+k, jx.Obj{"type": "object", "anyOf": jx.Arr{jx.Obj{"$ref": "#/definitions/Tock" + k}, jx.Obj{"$ref": "#/definitions/Tick" + k}}, "additionalProperties": jx.Obj{"$ref": "#/definitions/Tock" + k}})
+		b.Def("Tock"+k, jx.Obj{"type": "object", "anyOf": jx.Arr{jx.Obj{"$ref": "#/definitions/Tick" + k}, jx.Obj{"$ref": "#/definitions/Tock" + k}}, "additionalProperties": jx.Obj{"$ref": "#/definitions/Tick" + k}})
+		op := b.Op(b.newPath(), "get", true)
+		jx.AsObj(op["responses"])["200"] = jx.Obj{"description": b.lbl("pp"), "schema": jx.Obj{"type": "array", "items": jx.Obj{"$ref": "#/definitions/Ping" + k}}}
+		jx.AsObj(op["responses"])["201"] = jx.Obj{"description": b.lbl("tt"), "schema": jx.Obj{"type": "object", "additionalProperties": jx.Obj{"$ref": "#/definitions/Tick" + k}}}
 		for _, r := range []string{"#/definitions/AM" + k, "#/definitions/TS" + k, "#/definitions/AllS" + k, "sub/a.json#/definitions/RA" + k, "sub/a.json#/definitions/RM" + k} {
 			if Chance(b.rng, 60) {
 				b.useRef(r, holder)
